@@ -11,6 +11,7 @@ import (
 	"fmt"
 	"math"
 	"math/big"
+	"sort"
 	"strings"
 	"time"
 
@@ -248,8 +249,35 @@ func (s *csrSuite) modState() string {
 			}
 		}
 	}
-	return fmt.Sprintf("en=%d share=%s ts=%s mf=%d csrs=%s idx=%s tsb=%s", en, p.CsrShares.BigInt().String(), tsTok, mf,
-		d.Csrs, d.Idx, strings.Join(tsb, ","))
+	// the registry as the keeper's point lookups answer (GetNFTByContract, then GetCSR of the answer), for every address with
+	// code or without that the harness knows and every address the raw index names: they must agree with the raw store
+	var lk []string
+	probed := map[common.Address]bool{}
+	probe := func(a common.Address) {
+		if probed[a] {
+			return
+		}
+		probed[a] = true
+		id, found := w.App.CSRKeeper.GetNFTByContract(w.Ctx, a.String())
+		if !found {
+			return // absent entries are implied
+		}
+		_, has := w.App.CSRKeeper.GetCSR(w.Ctx, id)
+		h := 0
+		if has {
+			h = 1
+		}
+		lk = append(lk, fmt.Sprintf("%s~%d~%d", s.tok(a), id, h))
+	}
+	for _, a := range s.coded {
+		probe(a)
+	}
+	for _, a := range s.plain {
+		probe(a)
+	}
+	sort.Strings(lk)
+	return fmt.Sprintf("en=%d share=%s ts=%s mf=%d csrs=%s idx=%s tsb=%s lk=%s", en, p.CsrShares.BigInt().String(), tsTok, mf,
+		d.Csrs, d.Idx, strings.Join(tsb, ","), strings.Join(lk, ","))
 }
 
 func (s *csrSuite) sync() { s.t.Line("S " + s.modState() + " " + s.w.Snapshot().Full()) }
@@ -591,6 +619,22 @@ func (s *csrSuite) runHook(to *common.Address, gasUsed uint64, gasPrice *big.Int
 	tipCap := new(big.Int).Div(gasPrice, big.NewInt(3))
 	msg := ethtypes.NewMessage(from, to, uint64(s.r.Intn(1000)), big.NewInt(int64(s.r.Intn(3))), gasLimit, gasPrice, feeCap, tipCap, nil, ethtypes.AccessList{}, true)
 	receipt := &ethtypes.Receipt{Logs: logs, GasUsed: gasUsed, Status: ethtypes.ReceiptStatusSuccessful}
+	if to == nil {
+		// a creation receipt names the created contract: one that registers itself in this very receipt (its constructor
+		// called the Turnstile), an already registered one, or any contract. The hook must burn the whole fee regardless.
+		v := s.view()
+		switch k := s.r.Intn(10); {
+		case k < 5 && len(logs) > 0:
+			l := logs[s.r.Intn(len(logs))]
+			if len(l.Data) >= 32 {
+				receipt.ContractAddress = common.BytesToAddress(l.Data[:32])
+			}
+		case k < 8 && len(v.registered) > 0:
+			receipt.ContractAddress = pickAddr(s.r, v.registered)
+		default:
+			receipt.ContractAddress = s.pickContract(v)
+		}
+	}
 	toTok := "nil"
 	if to != nil {
 		toTok = s.tok(*to)
